@@ -1,7 +1,6 @@
 package astisub
 
 import (
-	"bufio"
 	"context"
 	"errors"
 	"fmt"
@@ -374,6 +373,9 @@ func ReadFromTeletext(r io.Reader, o TeletextOptions) (s *Subtitles, err error) 
 			break
 		}
 
+		// The demuxer doesn't rewind the reader anymore at this point
+		tr.release()
+
 		// We only parse PES data
 		if d.PES == nil {
 			continue
@@ -403,8 +405,8 @@ func ReadFromTeletext(r io.Reader, o TeletextOptions) (s *Subtitles, err error) 
 	}
 
 	// The stream didn't end, it failed
-	if re, ok := tr.(interface{ readErr() error }); ok && re.readErr() != nil {
-		err = fmt.Errorf("astisub: reading failed: %w", re.readErr())
+	if tr.readErr() != nil {
+		err = fmt.Errorf("astisub: reading failed: %w", tr.readErr())
 		return
 	}
 
@@ -419,10 +421,16 @@ func ReadFromTeletext(r io.Reader, o TeletextOptions) (s *Subtitles, err error) 
 }
 
 // teletextReader makes sure every read fills the buffer unless the stream ends: the demuxer detects the packet size
-// with a single read and fails if the reader delivers fewer bytes than requested
+// with a single read and fails if the reader delivers fewer bytes than requested. It can also be rewinded by the
+// demuxer, which reads the start of the stream twice (packet size detection, teletext PID detection), whatever the
+// kind of the underlying reader: when that one can't seek, what has been read is kept until it is released.
 type teletextReader struct {
-	err error // last error other than io.EOF returned by r
-	r   io.Reader
+	err    error // last error other than io.EOF returned by r
+	keep   bool  // whether what is read from r is kept
+	kept   []byte
+	r      io.Reader
+	replay []byte    // what is left to deliver again after a rewind
+	s      io.Seeker // not nil if r can seek
 }
 
 // readErr returns the read failure, if any. The demuxer takes some of them (io.ErrUnexpectedEOF) for the end of the
@@ -430,9 +438,16 @@ type teletextReader struct {
 func (r *teletextReader) readErr() error { return r.err }
 
 func (r *teletextReader) Read(p []byte) (n int, err error) {
+	if len(r.replay) > 0 {
+		n = copy(p, r.replay)
+		r.replay = r.replay[n:]
+	}
 	for n < len(p) && err == nil {
 		var nn int
 		nn, err = r.r.Read(p[n:])
+		if r.keep {
+			r.kept = append(r.kept, p[n:n+nn]...)
+		}
 		n += nn
 	}
 	// Deliver the last bytes first: the end of the stream is reported by the next read. Any other error, including
@@ -446,25 +461,33 @@ func (r *teletextReader) Read(p []byte) (n int, err error) {
 	return
 }
 
-// teletextReadSeeker is a teletextReader that can be rewinded by the demuxer
-type teletextReadSeeker struct {
-	teletextReader
-	s io.Seeker
-}
-
-func (r *teletextReadSeeker) Seek(offset int64, whence int) (int64, error) {
-	return r.s.Seek(offset, whence)
-}
-
-func newTeletextReader(r io.Reader) io.Reader {
-	// The demuxer peeks into this reader instead of reading it
-	if _, ok := r.(*bufio.Reader); ok {
-		return r
+// Seek rewinds the reader to its start
+func (r *teletextReader) Seek(offset int64, whence int) (int64, error) {
+	if r.s != nil {
+		return r.s.Seek(offset, whence)
 	}
+	if !r.keep || offset != 0 || whence != io.SeekStart {
+		return 0, errors.New("astisub: teletext reader can't seek")
+	}
+	r.replay = r.kept
+	return 0, nil
+}
+
+// release tells the reader it won't be rewinded anymore
+func (r *teletextReader) release() {
+	r.keep = false
+	r.kept = nil
+}
+
+func newTeletextReader(r io.Reader) *teletextReader {
+	tr := &teletextReader{r: r}
 	if s, ok := r.(io.Seeker); ok {
-		return &teletextReadSeeker{teletextReader: teletextReader{r: r}, s: s}
+		if _, err := s.Seek(0, io.SeekCurrent); err == nil {
+			tr.s = s
+		}
 	}
-	return &teletextReader{r: r}
+	tr.keep = tr.s == nil
+	return tr
 }
 
 // TODO Add tests
